@@ -97,6 +97,7 @@ def cfg_temporal(shape, max_level, **kw):
 # -------------------------------------------------------------------------------------------------
 class World:
     """A pony Database for one shape on a scratch SQLite file, plus the independent dump connection."""
+    cpk = False        # composite primary key of A (subclasses that build their own entities leave it off)
 
     def __init__(self, shape, path, strategy='default'):
         self.shape = shape
